@@ -1,6 +1,8 @@
 package main
 
 import (
+	"os"
+	"runtime/debug"
 	"fmt"
 	"go/token"
 	"go/types"
@@ -21,6 +23,9 @@ type Env struct {
 }
 
 func (e *Env) fail(format string, args ...interface{}) {
+	if os.Getenv("GOVC_DEBUG") != "" {
+		debug.PrintStack()
+	}
 	panic(fmt.Errorf("contract evaluation (%s): %s", shortKey(e.x.key), fmt.Sprintf(format, args...)))
 }
 
@@ -348,7 +353,7 @@ func (e *Env) valueEq(a, b Value, ex *Expr) Term {
 		if as.T.Sort != bs.T.Sort {
 			e.fail("==: sort mismatch %s vs %s in %s", as.T.Sort, bs.T.Sort, ex)
 		}
-		return e.x.binTerm(e.st, token.EQL, as.T, bs.T, "")
+		return Eq(as.T, bs.T) // specification equality is identity, not Go's == (NaN != NaN)
 	}
 	la, lb := flatten(a), flatten(b)
 	if len(la) != len(lb) {
@@ -361,7 +366,6 @@ func (e *Env) valueEq(a, b Value, ex *Expr) Term {
 	return And(cs...)
 }
 
-var qcount int
 
 // quant evaluates forall/exists, expanding literal ranges.
 func (e *Env) quant(ex *Expr) Term {
@@ -399,7 +403,8 @@ func (e *Env) quant(ex *Expr) Term {
 			}
 		}
 	}
-	qcount++
+	e.x.qcount++
+	qcount := e.x.qcount
 	env := e
 	var vars []Term
 	for _, v := range ex.Vars {
@@ -536,17 +541,9 @@ func (e *Env) call(ex *Expr) Value {
 		if e.head == nil {
 			e.fail("hd() only in loop step clauses: %s", ex)
 		}
+		// heap and ghost state of the loop head; names keep their current values
 		n := *e
 		n.st = e.head
-		hn := e.x.loopEnvNames(e.head)
-		m := map[string]Value{}
-		for k, v := range e.names {
-			m[k] = v
-		}
-		for k, v := range hn {
-			m[k] = v
-		}
-		n.names = m
 		return n.eval(args[0])
 	case "ite":
 		return e.eval(&Expr{Op: "ite", Args: args})
@@ -619,7 +616,7 @@ func (e *Env) call(ex *Expr) Value {
 		// ghost field: gh("name", ref)
 		ref := flatten(e.eval(args[1]))
 		key := ref[len(ref)-1]
-		m := mapRef{smtName("G!" + args[0].Name), ArraySort(SInt, SInt)}
+		m := mapRef{smtName("H!ghost!" + args[0].Name), ArraySort(SInt, SInt)}
 		return Scalar{Select(e.x.heapGet(e.st, m), key)}
 	case "alloc":
 		return Scalar{e.st.alloc}
@@ -648,6 +645,10 @@ func (e *Env) call(ex *Expr) Value {
 		}
 		r := e.x.applyFuncValue(e.st, fv, fv.Sig, vs, "")
 		return r
+	case "goeq", "gone", "golt", "gole", "gogt", "goge":
+		a, b := e.eval(args[0]).(Scalar).T, e.eval(args[1]).(Scalar).T
+		tk := map[string]token.Token{"goeq": token.EQL, "gone": token.NEQ, "golt": token.LSS, "gole": token.LEQ, "gogt": token.GTR, "goge": token.GEQ}[name]
+		return Scalar{e.x.binTerm(e.st, tk, a, b, "")}
 	case "fst":
 		return e.eval(args[0]).(TupleV).Elems[0]
 	case "snd":
@@ -658,6 +659,27 @@ func (e *Env) call(ex *Expr) Value {
 	}
 	if f, ok := e.x.P.db.Fns[name]; ok {
 		return e.specCall(f, args, ex)
+	}
+	if ret, ok := e.x.P.db.UFuns[name]; ok {
+		var ats []Term
+		var sorts []string
+		for _, a := range args {
+			v := e.eval(a)
+			if iv, isI := v.(IfaceV); isI {
+				v = Scalar{iv.Val} // objects behind interfaces are identified by their reference
+			}
+			for _, l := range flatten(v) {
+				ats = append(ats, l)
+				sorts = append(sorts, l.Sort)
+			}
+		}
+		rs := SInt
+		if ret == "bool" {
+			rs = SBool
+		}
+		fn := "u!" + smtName(name)
+		e.x.decls.Fun(fn, sorts, rs)
+		return Scalar{App(rs, fn, ats...)}
 	}
 	e.fail("unknown function %q in %s", name, ex)
 	return nil
